@@ -5,6 +5,7 @@ package main
 import (
 	"bytes"
 	"fmt"
+	"os"
 	"runtime"
 	"strings"
 	"time"
@@ -68,7 +69,18 @@ const vegetaLibPath = "github.com/tsenart/vegeta/v12/lib."
 
 // isVegetaG reports whether the goroutine belongs to an attack (has a frame
 // in, or was created by, the vegeta library).
-func isVegetaG(g gInfo) bool { return strings.Contains(g.Frames, vegetaLibPath) }
+func isVegetaG(g gInfo) bool {
+	// inlined closures lose the package path in their name (main.f.func1.NewJSONTargeter.2)
+	// but keep the source file of the checkout
+	return strings.Contains(g.Frames, vegetaLibPath) || strings.Contains(g.Frames, repoDir()+"/lib/")
+}
+
+func repoDir() string {
+	if r := os.Getenv("VERIF_REPO"); r != "" {
+		return r
+	}
+	return "/repo"
+}
 
 type quiesceResult struct {
 	Polls      int
